@@ -438,10 +438,16 @@ func RunReplay(p *Prop, path string, verifDir string) int {
 		tries = 10
 		pc.workers = 16
 	}
+	// a first-use interleaving cannot be reproduced by one case alone: repeat the whole cold-concurrent schedule
+	coldRp := strings.Contains(rp.Flavour, "#coldconc")
+	if coldRp {
+		tries = 10
+		pc.workers = 16
+	}
 	for t := 0; t < tries; t++ {
 		logPath := filepath.Join(pc.workDir, "replay.log")
 		var only *CaseRef
-		if rp.Family != "" && rp.Family != "?" {
+		if rp.Family != "" && rp.Family != "?" && !coldRp {
 			only = &CaseRef{rp.Family, rp.Idx}
 		}
 		code, to := pc.spawn(rp.Flavour, only, logPath, 30*time.Minute)
